@@ -357,6 +357,27 @@ def t_story(st):
     return f"(mkSS None {coq_list(ps)})"
 
 
+def decorate(src, rng, stats):
+    """Insert '#' comment lines (invisible by the reference) between lines, outside @py bodies."""
+    out, in_py = [], False
+    for l in src.split("\n"):
+        st = l.strip()
+        if not in_py and rng.random() < 0.08:
+            ind = l[:len(l) - len(l.lstrip(" "))]
+            out.append(ind + rng.choice(["# note", "#", "# -> P1", "# ~ a = 9", "#   spaced  "]))
+            stats["comment-lines"] = stats.get("comment-lines", 0) + 1
+        was_py = in_py
+        if st.startswith("@py"):
+            in_py = True
+        elif st == "@endpy":
+            in_py = False
+        if st and not was_py and rng.random() < 0.08:
+            l = l + rng.choice([" // note", "  // -> P1", " // ~ a = 9", " //"])
+            stats["trailing-comments"] = stats.get("trailing-comments", 0) + 1
+        out.append(l)
+    return "\n".join(out)
+
+
 PINNED_F01C = ":: Start\n~ a = 1\n@if a:\n    Glued<>\n    ~ a = 2\n    tail\n@endif\n+ [Go] -> Start\n"
 
 
@@ -389,7 +410,7 @@ def run(tier: str, seed: int) -> int:
             r = random.Random(sub)
             g = SrcGen(r, depth=2 if tier == "quick" else 3)
             ast_ = g.story()
-            src = print_story(ast_)
+            src = decorate(print_story(ast_), random.Random(sub ^ 0x5EED), g.stats)
             for k_, v_ in g.stats.items():
                 stats["constructs"][k_] = stats["constructs"].get(k_, 0) + v_
 
